@@ -82,3 +82,36 @@ if auto:
     out.append("")
     open(os.path.join(here,'mutants','AUTO_RESULTS.md'),'w').write('\n'.join(out))
     print('mutants/AUTO_RESULTS.md: killed',k,'discarded',len(d),'(no-compile',len(nocompile),') survived',len(sv),'untriaged',sum(1 for n in sv+caught_by_suite_only if why(n)=='UNTRIAGED'))
+
+# ---- second systematic set (mutants/AUTO2_RESULTS.*.txt, tools/automut2.py)
+auto2=sorted(glob.glob(os.path.join(here,'mutants','AUTO2_RESULTS.*.txt')))
+if auto2:
+    tri=json.load(open(os.path.join(here,'mutants','auto_triage.json')))['patterns']
+    latest={}
+    for f in auto2:
+        for l in open(f):
+            l=l.rstrip('\n')
+            if ' ' not in l or '__auto2_' not in l.split(' ',1)[0]: continue
+            name,rest=l.split(' ',1); latest[name]=rest
+    def why2(n):
+        for t in tri:
+            if t['match'] in n: return t['reason']
+        return 'UNTRIAGED'
+    k=[n for n,r in latest.items() if r.startswith('KILLED')]
+    d=[n for n,r in latest.items() if r.startswith('DISCARDED')]
+    nocompile=[n for n in d if 'rc=2' in latest[n] and 'rc=0' not in latest[n] and 'rc=1' not in latest[n]]
+    sv=[n for n,r in latest.items() if r.startswith('SURVIVED')]
+    out=["# Second systematic mutant set (tools/automut2.py)","",
+    "Statement deletion (one-line statements other than declarations and log macros), `break`/`continue` deletion, negated `if` conditions and `wrapping_add(1)` dropped, on the same nine source files. Run with `mutants/run.sh --checks-first`.","",
+    "* generated: %d (in `mutants/auto2/`), results recorded: %d"%(len(os.listdir(os.path.join(here,'mutants','auto2'))),len(latest)),
+    "* **killed by a check: %d**"%len(k),
+    "* discarded: %d (of which %d do not compile)"%(len(d),len(nocompile)),
+    "* survived checks and suite: %d"%len(sv),"",
+    "## Survivors","","| mutant | triage |","|---|---|"]
+    for n in sorted(sv): out.append("| %s | %s |"%(n,why2(n)))
+    rest=[n for n in d if n not in nocompile]
+    out+=["","## Caught by the repository's suite but not by our checks","","| mutant | triage |","|---|---|"]
+    for n in sorted(rest): out.append("| %s | %s |"%(n,why2(n)))
+    out.append("")
+    open(os.path.join(here,'mutants','AUTO2_RESULTS.md'),'w').write('\n'.join(out))
+    print('mutants/AUTO2_RESULTS.md: killed',len(k),'discarded',len(d),'(no-compile',len(nocompile),') survived',len(sv),'untriaged',sum(1 for n in sv+rest if why2(n)=='UNTRIAGED'))
